@@ -99,7 +99,8 @@ class Matcher:
             m = c18_mini.mini(self.spec, node)
             if m is None:
                 return None
-            return {t: (('whole', node) if v is node else ('node', v)) for t, v in m.items()}
+            return {t: (('slice', list(v[1]), None) if isinstance(v, tuple) else ('whole', node) if v is node else ('node', v))
+                    for t, v in m.items() if not (isinstance(v, tuple) and not v[1])}
         b = self.map.get(id(node))
         if b is not None:
             f = b.f
